@@ -1,4 +1,4 @@
-HOOK_COMMITS = []
+HOOK_COMMITS = ["977e736"]
 NOTES = ("All checks: bin/check <ID>. Fix commits made to /repo for genuine defects are listed in known_findings.json "
          "(status fixed); known findings (status known) print KNOWN-FINDING lines. See DESIGN.md.")
 NOT_YET = {}
